@@ -442,7 +442,7 @@ func (x *Exec) contractCall(st *State, fr *Frame, con *FuncContract, callee *ssa
 	var res Val
 	var rvals []Val
 	if rt != nil {
-		if con.Pure && con.Extern {
+		if con.Pure && (con.Extern || con.Trusted != "") {
 			res = x.pureResults(st, con, rt, args)
 		} else {
 			res = x.havocTuple(st, rt)
@@ -675,6 +675,29 @@ func (x *Exec) decodedFuncs(t types.Type, srcSort string) (okF, valF string) {
 func (x *Exec) decodeInto(st *State, pre *State, arg Val, src ssa.Value, fr *Frame) (string, types.Type) {
 	var pt *types.Pointer
 	var ref string
+	// a variadic argument list built at the call site: every boxed pointer stored into it is a decoding target
+	if sl, ok := src.(*ssa.Slice); ok {
+		if al, ok := sl.X.(*ssa.Alloc); ok && al.Referrers() != nil {
+			var elems []ssa.Value
+			for _, r1 := range *al.Referrers() {
+				ia, ok := r1.(*ssa.IndexAddr)
+				if !ok || ia.Referrers() == nil {
+					continue
+				}
+				for _, r2 := range *ia.Referrers() {
+					if sto, ok := r2.(*ssa.Store); ok && sto.Addr == ia {
+						elems = append(elems, sto.Val)
+					}
+				}
+			}
+			if len(elems) > 0 {
+				for _, e := range elems {
+					x.decodeInto(st, pre, x.val(st, fr, e), e, fr)
+				}
+				return "", nil
+			}
+		}
+	}
 	switch s := src.(type) {
 	case *ssa.MakeInterface:
 		if p, ok := s.X.Type().Underlying().(*types.Pointer); ok {
